@@ -353,6 +353,9 @@ class Interp:
 def analyse(body):
     """returns (results {case key: (delta, on)}, failures per kappa, verdict kappa or None)"""
     res = {}
+    ret_ty = str(((getattr(body, 'raw', None) or {}).get('locals') or [{}])[0].get('ty', '()'))
+    if ret_ty not in ('()', ''):
+        raise NotAnalysable('add_edge returns a %s: its contribution is no longer only its update of the state fields' % ret_ty)
     for case in all_cases():
         it = Interp(body, case)
         res[case.key()] = (case,) + it.run()
